@@ -3,7 +3,7 @@ import ast
 
 from ..core import AnalysisError, dotted, call_name, src, walk_local, const_value, last_name
 from ..flow import edge_facts, leaves, linear, Lin
-from ..rules import (flow_of, inline_helpers, calls_in, bind_args, canon, lin, is_lin, state_writes, who_calls,
+from ..rules import (flow_of, inline_helpers, calls_in, bind_args, canon, lin, is_lin, state_writes, who_calls, alts_deep,
                      edge_nodes_with, region, always_before_exit, in_loop_within, facts_at, cmp_norm)
 
 EXPLANATION = ("Static structural rules over simulator.py, events/*.py, charging_network.py, evse.py: event precedence "
@@ -234,20 +234,7 @@ def rule_pairing(ck, rid="C01.R4"):
                        sink=f"{nm}-caller:{q}")
     ck.floor(rid, n_sites, 3, "call sites of add_event/add_events")
 
-    # ChargingNetwork.plugin looks the EVSE up by ev.station_id and plugs the same ev
-    np_ = repo.method(net, "plugin")
-    nfl = flow_of(np_)
-    evparam = np_.params[1]
-    sites = []
-    for n, c in calls_in(nfl, "plugin"):
-        recv = c.func.value
-        if isinstance(recv, ast.Subscript) and dotted(recv.value) == "self._EVSEs":
-            idx = canon(nfl.expand(recv.slice, n))
-            arg = canon(nfl.expand(c.args[0], n)) if c.args else None
-            sites.append((c, idx == f"{evparam}.station_id" and arg == evparam))
-    ck.require(bool(sites) and all(g for _, g in sites), rid, np_, sites[0][0] if sites else "self._EVSEs[ev.station_id].plugin(ev)",
-               ok="EVSE looked up by ev.station_id and given the same ev",
-               bad="ChargingNetwork.plugin must plug `ev` into self._EVSEs[ev.station_id]", sink="network-plugin-lookup")
+    # (that ChargingNetwork.plugin hands `ev` to the EVSE registered under ev.station_id, on every returning path, is C01.R9)
 
 
 def rule_session_checked_unplug(ck, rid="C01.R5"):
@@ -335,6 +322,24 @@ def rule_network_transitions(ck, rid="C01.R9"):
     pathtab.must_on(ck, rid, pl, normal, is_plug, 1, "EVSE.plugin(ev) at the station named by ev.station_id on every normally returning path", "plugin:due",
                     ok="a plug-in that returns has attached the EV exactly once")
     pathtab.contradicted_membership(ck, rid, pl, pfl, prow, sink="plugin:membership")
+
+
+def _covers_current(e):
+    """width expression >= self._iteration + 1: `_iteration + c` (c >= 1), `<last pending timestamp> + c` (c >= 1; every pending event is
+    later than the current period once the due ones were popped), or a max() with such an operand"""
+    if isinstance(e, ast.Call) and call_name(e) in ("max", "maximum") and e.args:
+        ops = e.args[0].elts if len(e.args) == 1 and isinstance(e.args[0], (ast.List, ast.Tuple)) else e.args
+        return any(_covers_current(a) for a in ops)
+    if isinstance(e, ast.Call) and call_name(e) == "__gamma__" and len(e.args) == 3:
+        return _covers_current(e.args[1]) and _covers_current(e.args[2])
+    if isinstance(e, ast.IfExp):
+        return _covers_current(e.body) and _covers_current(e.orelse)
+    lf = linear(e, norm=canon)
+    if set(lf.t) == {"self._iteration"} and lf.t["self._iteration"] == 1:
+        return lf.c >= 1
+    if len(lf.t) == 1 and list(lf.t.values()) == [1] and list(lf.t)[0].endswith("event_queue.get_last_timestamp()"):
+        return lf.c >= 1
+    return False
 
 
 def find_main_loop(fl):
@@ -440,6 +445,31 @@ def rule_loop(ck, rid="C01.R6"):
                bad="update_pilots must be bound pilots<-self.pilot_signals, i<-self._iteration (exactly), period<-self.period",
                sink="update_pilots-binding")
 
+    # (g) the history arrays cover the current period before it is simulated, in every period (also one without events): the
+    #     growth to at least _iteration + 1 columns lies on every path from the loop entry to update_pilots / the recording
+    for attr, user, what in (("self.pilot_signals", un_, "update_pilots"), ("self.charging_rates", stn, "_store_actual_charging_rates")):
+        grows = []
+        for n, k, p, t_ in state_writes(fl):
+            if p == attr and k == "assign" and n in body and isinstance(n.stmt.value, ast.Call) and call_name(n.stmt.value) == "_increase_width":
+                grows.append(n)
+        if not grows:
+            ck.error(rid + "g", f"no `{attr} = _increase_width(...)` in the loop body of Simulator.run (growth idiom not recognised)")
+            continue
+        ck.require(user not in cfg.reach(true_edge, avoid=set(grows) | {cfg.raise_exit}), rid + "g", run0, grows[0].stmt,
+                   ok=f"{attr.split('.')[1]} is grown on every path before {what}",
+                   bad=f"a path through the loop body reaches {what} without growing {attr.split('.')[1]}: in a period without events the column "
+                       f"of the current period may not exist (IndexError, run() does not terminate normally)", sink=f"grow-every-period:{attr.split('.')[1]}")
+        for gnode in grows:
+            call = gnode.stmt.value
+            fin = repo.fn("_increase_width")
+            b2 = bind_args(call, fin, method=False)
+            w = b2.get(fin.params[1])
+            src_ok = b2.get(fin.params[0]) is not None and canon(b2[fin.params[0]]) == attr
+            alts = alts_deep(fl.expand(w, gnode)) if w is not None else []
+            bad_alt = [a for a in alts if not _covers_current(a)]
+            ck.require(src_ok and alts and not bad_alt, rid + "g", run0, call, ok="grown from itself to at least _iteration + 1 columns",
+                       bad=f"the new width `{src(bad_alt[0]) if bad_alt else src(call)}` does not provably cover column _iteration", sink=f"grow-width:{attr.split('.')[1]}")
+
     # (e) single +1 increment, on every path, last
     incs = [(n, k, t_) for n, k, p, t_ in state_writes(fl) if p == "self._iteration" and n in body]
     ck.require(len(incs) == 1, rid + "e", run0, incs[0][2] if incs else "self._iteration += 1",
@@ -478,7 +508,7 @@ def run(ck):
     typed = 0
     for q in ("ChargingNetwork.plugin", "ChargingNetwork.unplug", "Simulator._process_event"):
         typed += index_check(ck, "C01.R10", ck.repo.fn(q))[0]
-    ck.floor("C01.R10", typed, 8, "typed index sites on the plug/unplug path")
+    ck.floor("C01.R10", typed, 3, "typed index sites on the plug/unplug path")
     from .c13 import rule_occupant
     rule_occupant(ck, rid="C01.R7")
     # events come out of the queue in (time, precedence) order only if the queue is a heap and is drained by popping (shared with C11)
